@@ -216,7 +216,15 @@ def check(tier):
     targets = list(targets)
     rnd.shuffle(targets)
     tasks = [(shapes.class_id(c), opts, "arbitrary") for c in targets]
-    corrupt_targets = targets if tier == "thorough" else targets[::3]
+    def rare_plan(c):
+        # classes whose decoding plan has a nullable-struct marker or a tagged section get the corruption run in every tier
+        for f in dataclasses.fields(c):
+            is_array, nullable, inner, _ = kref.split_annotation(kref.field_type(c, f))
+            if (nullable and not is_array and dataclasses.is_dataclass(inner)) or "tag" in f.metadata:
+                return True
+        return False
+
+    corrupt_targets = targets if tier == "thorough" else [c for k, c in enumerate(targets) if k % 3 == 0 or rare_plan(c)]
     tasks += [(shapes.class_id(c), opts, "corrupt") for c in corrupt_targets]
     total = Stats()
     capped = []
